@@ -41,6 +41,10 @@ theorem wrapC {x : Nat} (h : x < 18446744073709551616) : wrap carryBits x = x :=
   wrap_of_lt (by norm_num [carryBits]; exact h)
 theorem wrapV {x : Nat} (h : x < 18446744073709551616) : wrap dividendBits x = x :=
   wrap_of_lt (by norm_num [dividendBits]; exact h)
+theorem wrapM {x : Nat} (h : x < 18446744073709551616) : wrap mulBits x = x :=
+  wrap_of_lt (by norm_num [mulBits]; exact h)
+theorem wrapDM {x : Nat} (h : x < 18446744073709551616) : wrap divMulBits x = x :=
+  wrap_of_lt (by norm_num [divMulBits]; exact h)
 theorem wrapT {x : Nat} (h : x < 18446744073709551616) : wrap top53Bits x = x :=
   wrap_of_lt (by norm_num [top53Bits]; exact h)
 
@@ -54,7 +58,7 @@ theorem muladdDigitsW_eq (f : Nat) (hf : f ≤ bigBase) (ds : List Nat) (carry :
     obtain ⟨hd, hr⟩ := AllLt_cons.1 hl
     have hf' : f ≤ 2147483648 := by rw [bb] at hf; exact hf
     have hdf : d * f ≤ 2147483647 * 2147483648 := Nat.mul_le_mul (by rw [bb] at hd; omega) hf'
-    have w1 : wrap carryBits (d * f) = d * f := wrapC (by omega)
+    have w1 : wrap mulBits (d * f) = d * f := wrapM (by omega)
     have w2 : wrap carryBits (carry + d * f) = carry + d * f := wrapC (by omega)
     have hm := Nat.mod_lt (carry + d * f) bigBase_pos
     have w3 : wrap digitBits ((carry + d * f) % bigBase) = (carry + d * f) % bigBase := wrapD (by rw [bb] at hm ⊢; omega)
@@ -69,25 +73,27 @@ theorem bignat_muladdW_eq (x : BigNat) (f term : Nat) (hf : f ≤ bigBase) (ht :
   have wf : wrap factorBits f = f := wrapF (by omega)
   have wt : wrap factorBits term = term := wrapF (by omega)
   have hxf : x.first * f ≤ 2147483647 * 2147483648 := Nat.mul_le_mul (by omega) hf'
-  have w1 : wrap carryBits (x.first * f) = x.first * f := wrapC (by omega)
-  have w2 : wrap carryBits (x.first * f + term) = x.first * f + term := wrapC (by omega)
+  have w1 : wrap mulBits (x.first * f) = x.first * f := wrapM (by omega)
+  have w2 : wrap mulBits (x.first * f + term) = x.first * f + term := wrapM (by omega)
+  have w2' : wrap carryBits (x.first * f + term) = x.first * f + term := wrapC (by omega)
   have hm := Nat.mod_lt (x.first * f + term) bigBase_pos
   have w3 : wrap digitBits ((x.first * f + term) % bigBase) = (x.first * f + term) % bigBase := wrapD (by rw [bb] at hm ⊢; omega)
   unfold bignat_muladdW bignat_muladd
   simp only
-  rw [wf, wt, w1, w2, w3, muladdDigitsW_eq f hf _ _ hi.allLt (first_carry hi.first_lt ht)]
+  rw [wf, wt, w1, w2, w2', w3, muladdDigitsW_eq f hf _ _ hi.allLt (first_carry hi.first_lt ht)]
 
 /-! ### bignat_div -/
 
 /-- one step of the long division: `remainder < divisor ≤ 2^31`, incoming digit `< 2^31` ⇒ the 64-bit dividend does not
     wrap and quotient and remainder fit 32 (even 31) bits -/
 theorem div_step (dv rem lo : Nat) (hdv : 0 < dv) (hle : dv ≤ 2147483648) (hrem : rem < dv) (hlo : lo < 2147483648) :
-    wrap dividendBits (wrap dividendBits (rem * bigBase) + lo) = rem * bigBase + lo ∧
+    wrap dividendBits (wrap divMulBits (wrap divMulBits (rem * bigBase) + lo)) = rem * bigBase + lo ∧
     (rem * bigBase + lo) / dv < 2147483648 ∧ (rem * bigBase + lo) % dv < 2147483648 := by
   have hrb : rem * bigBase ≤ 2147483647 * 2147483648 := Nat.mul_le_mul (by omega) (by rw [bb])
-  have w1 : wrap dividendBits (rem * bigBase) = rem * bigBase := wrapV (by omega)
-  have w2 : wrap dividendBits (rem * bigBase + lo) = rem * bigBase + lo := wrapV (by omega)
-  refine ⟨by rw [w1, w2], ?_, ?_⟩
+  have w1 : wrap divMulBits (rem * bigBase) = rem * bigBase := wrapDM (by omega)
+  have w2 : wrap divMulBits (rem * bigBase + lo) = rem * bigBase + lo := wrapDM (by omega)
+  have w3 : wrap dividendBits (rem * bigBase + lo) = rem * bigBase + lo := wrapV (by omega)
+  refine ⟨by rw [w1, w2, w3], ?_, ?_⟩
   · rw [Nat.div_lt_iff_lt_mul hdv]
     have h1 : (rem + 1) * 2147483648 ≤ dv * 2147483648 := Nat.mul_le_mul_right _ (by omega)
     have h2 : (rem + 1) * 2147483648 = rem * bigBase + 2147483648 := by rw [bb]; ring
